@@ -473,13 +473,43 @@ def rules(ctx):
     ctx.inst('M8', ('qubovert/sim', ''), 'block copies', True, "%d memcpy/memset calls checked" % nmem, nontrivial=False)
 
     # ---------------------------------------------------------------- M9
-    for f in funcs:
+    def list_sizes(f):
         sizes = {}
         for a in f.assigns:
             if a['rhs'] is not None:
                 m = re.search(r'PyList_Size\((\w+)\)', nsp(S(a['rhs'])))
                 if m:
                     sizes[nsp(a['lhs'])] = m.group(1)
+        return sizes
+
+    def m9_decide(f, lst, hi, depth=0):
+        """(ok, message) for reading items [0, hi) of the list `lst` inside f."""
+        src_list = list_sizes(f).get(hi)
+        if src_list == lst:
+            return True, "bounded by PyList_Size of the same list"
+        ob = PYLIST_PAIRS.get((lst, src_list or hi))
+        if ob:
+            obligations.add(ob)
+            return True, "bounded by the size of %s; equal lengths are a front-end obligation (%s)" % (src_list or hi, ob)
+        pnames = [p for p, _ in f.params]
+        if lst in pnames and hi in pnames and depth < 3:
+            # a helper that receives list and bound: decide at every call site with the caller's names
+            sites = [(g, c) for g in C.funcs.values() for c in g.calls if c['callee'] == f.name]
+            if sites:
+                res = []
+                for g, c in sites:
+                    if len(c['argtxt']) != len(pnames):
+                        res.append((False, "call of %s in %s does not bind its parameters" % (f.name, g.name)))
+                        continue
+                    b = dict(zip(pnames, [nsp(a) for a in c['argtxt']]))
+                    ok_, msg_ = m9_decide(g, b[lst], b[hi], depth + 1)
+                    res.append((ok_, "%s(%s) in %s: %s" % (f.name, ', '.join(c['argtxt']), g.name, msg_)))
+                bad_ = [m_ for ok_, m_ in res if not ok_]
+                return (not bad_), (bad_[0] if bad_ else "at every call site: " + res[0][1])
+        return False, ("items of `%s` are read up to the size of `%s`; no front-end rule guarantees `%s` is that long "
+                       "(PyList_GetItem returns NULL beyond the end)" % (lst, src_list or hi, lst))
+
+    for f in funcs:
         for c in f.calls:
             if c['callee'] != 'PyList_GetItem':
                 continue
@@ -490,17 +520,8 @@ def rules(ctx):
                          "index `%s` is not a loop variable bounded from 0" % idx)
                 continue
             hi = nsp(l[-1]['hi'])
-            src_list = sizes.get(hi)
-            if src_list == lst:
-                ctx.inst('M9', (f.unit, f.name), 'PyList_GetItem(%s, %s)' % (lst, idx), True, "bounded by PyList_Size of the same list")
-            else:
-                ob = PYLIST_PAIRS.get((lst, src_list or hi))
-                if ob:
-                    obligations.add(ob)
-                ctx.inst('M9', (f.unit, f.name), 'PyList_GetItem(%s, %s)' % (lst, idx), bool(ob),
-                         "bounded by the size of %s; equal lengths are a front-end obligation (%s)" % (src_list or hi, ob) if ob else
-                         "items of `%s` are read up to the size of `%s`; no front-end rule guarantees `%s` is that long "
-                         "(PyList_GetItem returns NULL beyond the end)" % (lst, src_list or hi, lst))
+            ok_, msg_ = m9_decide(f, lst, hi)
+            ctx.inst('M9', (f.unit, f.name), 'PyList_GetItem(%s, %s)' % (lst, idx), ok_, msg_)
 
     # ---------------------------------------------------------------- O1 - O5 (Python front end)
     ctx.note("obligations to discharge on the Python side: %s" % sorted(obligations))
@@ -639,8 +660,10 @@ def init_rules(ctx, C, X, funcs):
                      "that was never (re)allocated is a NULL / wild pointer" % (tv, E))
             z = [s_ for s_ in f.subs if s_['write'] and re.fullmatch(r'%s\[\w+\]' % tv, nsp(s_['base'])) and nsp(s_['index']) == '0'
                  and s_['loops'] and nsp(s_['loops'][-1]['hi']) in E and not s_['guards']]
-            ctx.inst('M5', (f.unit, f.name), 'count cell of every row of %s initialised' % tv, bool(z),
+            zc = bool(full) and all(r['fn'] == 'calloc' for r in full)
+            ctx.inst('M5', (f.unit, f.name), 'count cell of every row of %s initialised' % tv, bool(z) or zc,
                      "cell 0 (the count) of every row is written in the allocation loop" if z else
+                     "every row comes zero-filled from calloc" if zc else
                      "the count cell [0] of the rows of `%s` is not initialised for every row" % tv)
 
 
